@@ -137,9 +137,10 @@ class Tag(DataLoaderCallback):
         return ([v + 1000 for v in X], list(y))
 
 
-def %(name)s(X: List[int]) -> bool:
+def %(name)s(X: List[int], idx: int) -> bool:
     """
     pre: len(X) <= %(maxn)d
+    pre: -7 <= idx <= 7
     post: __return__ == True
     """
     _PATHS[0] += 1
@@ -171,6 +172,24 @@ def %(name)s(X: List[int]) -> bool:
                 xs = [v + 1000 for v in xs]
             if list(xb) != xs or list(yb) != y[i * BS:(i + 1) * BS]:
                 return False
+    # direct indexing: batch idx for 0 <= idx < len(dl); anything a loader hands out is a full, aligned batch, so an index
+    # outside the range is refused (a negative index may also count from the end) - never a short or empty batch
+    nb = n // BS
+    CALLS[0] = 0
+    try:
+        xb, yb = dl[idx]
+    except IndexError:
+        if 0 <= idx < nb:
+            return False
+    else:
+        j = idx if idx >= 0 else nb + idx
+        if not (0 <= j < nb):
+            return False
+        xs = X[j * BS:(j + 1) * BS]
+        if USE_T:
+            xs = [v + 1000 for v in xs]
+        if list(xb) != xs or list(yb) != y[j * BS:(j + 1) * BS] or len(xb) != BS:
+            return False
     it = iter(dl)                              # a fresh iteration restarts even after a partial one
     if n // BS >= 1:
         next(it)
@@ -188,9 +207,10 @@ def %(name)s(X: List[int]) -> bool:
     return True
 
 
-def %(name)s_twin(X: List[int]) -> bool:
+def %(name)s_twin(X: List[int], idx: int) -> bool:
     """
     pre: len(X) <= %(maxn)d
+    pre: -7 <= idx <= 7
     post: False
     """
     return True
